@@ -292,7 +292,13 @@ pub fn run(sc: &Scenario) -> Outcome {
     };
     assert!(sc.spec.kind == Kind::Standard, "harness: E1 uses standard-kind automata");
     // A build that fails or panics is not C12's business (C10): the run is counted, not judged.
-    let built = std::panic::catch_unwind(std::panic::AssertUnwindSafe(|| pma::build(&sc.spec)));
+    let built = std::panic::catch_unwind(std::panic::AssertUnwindSafe(|| {
+        pma::build(&sc.spec).map(|p| match sc.provenance {
+            1 => p.clone_box(),
+            2 => p.roundtrip(&[]).0,
+            _ => p,
+        })
+    }));
     let pma = match built {
         Ok(Ok(p)) => p,
         Ok(Err(e)) => {
@@ -303,11 +309,6 @@ pub fn run(sc: &Scenario) -> Outcome {
             out.build_error = Some("construction panicked".into());
             return out;
         }
-    };
-    let pma = match sc.provenance {
-        1 => pma.clone_box(),
-        2 => pma.roundtrip(&[]).0,
-        _ => pma,
     };
     let world = Rc::new(RefCell::new(World {
         variant: sc.spec.variant,
@@ -439,9 +440,16 @@ fn exec<'a>(
                 if !hs[handle].finished {
                     world.borrow_mut().c.f_cancel += 1;
                 }
+                let before = world.borrow().pulls[handle];
                 hs[handle].it = None;
                 hs[handle].dropped = true;
                 world.borrow_mut().log(7, handle);
+                let after = world.borrow().pulls[handle];
+                if after != before {
+                    // the caller takes the source back when it drops the search: nothing may be
+                    // taken from it behind the caller's back
+                    viol!("lazy", "handle {handle}: dropping the search iterator pulled {} more byte(s) from the source", after - before);
+                }
             }
             Ev::Poll { handle } | Ev::Drain { handle } => {
                 if handle >= hs.len() || !hs[handle].opened || hs[handle].dropped {
@@ -601,10 +609,9 @@ fn exec<'a>(
                     hspec.method, hst.got, fin.len(), want
                 );
             }
-            // L2/L1 at the end: everything was pulled, once
-            if w.pulls[h] != fin.len() {
-                viol!("once", "handle {h}: iterator exhausted after pulling {} of {} bytes", w.pulls[h], fin.len());
-            }
+            // (an iterator may return None without having pulled everything, e.g. when the rest
+            // is known to be too short for any pattern: "each byte once" means at most once, and
+            // that holds by construction of the forward-only source)
         } else if !is_prefix(&hst.got, &want) {
             viol!(
                 "same-matches",
@@ -919,8 +926,14 @@ pub fn reference_panics(sc: &Scenario) -> bool {
         let Ok(p) = pma::build(&sc.spec) else { return };
         for h in &sc.handles {
             if let Some(c) = sc.streams.get(h.stream) {
-                for cut in gen::boundaries(sc.spec.variant, c) {
-                    let _ = pma::search(&*p, h.method, &c[..cut]);
+                // the whole content and a handful of prefixes (linear in the content; the online
+                // checks only ever search prefixes of at most ONLINE_L3_LIMIT bytes)
+                let b = gen::boundaries(sc.spec.variant, c);
+                let step = (b.len() / 8).max(1);
+                for cut in b.iter().step_by(step).chain(b.last()) {
+                    if *cut <= ONLINE_L3_LIMIT || *cut == c.len() {
+                        let _ = pma::search(&*p, h.method, &c[..*cut]);
+                    }
                 }
             }
         }
